@@ -55,7 +55,7 @@ func c04Valid(mask int) bool {
 func c04Parent(id, mask, enPat, traitPat, wOff int) *GenomeSpec {
 	s := &GenomeSpec{ID: id,
 		Traits: []TraitSpec{{1, params8(0.1 * float64(wOff+1))}, {2, params8(1.5 + float64(wOff))}},
-		Nodes: []NodeSpec{{1, network.BiasNeuron, 0, 0}, {2, network.InputNeuron, 0, 0}, {3, network.InputNeuron, 0, 0},
+		Nodes: []NodeSpec{{1, network.BiasNeuron, 17, 0}, {2, network.InputNeuron, 17, 0}, {3, network.InputNeuron, 17, 0},
 			{4, network.OutputNeuron, xorSeed().Nodes[3].Act, 0}}}
 	need := map[int]bool{}
 	idx := 0
